@@ -127,7 +127,8 @@ Section StepSet.
       unfold var_ok. cbn [set_val v_val v_last v_dfr p_changed p_val p_trig p_dirty].
       split; [reflexivity|]. split; [exact Hvalid|]. split; [exact Hrate|].
       destruct (d_ev d) eqn:E.
-      + destruct Hcase as [Hf|Hd]; [discriminate|]. destruct Hev as [Hl [Hdd Hle]]. repeat split; auto.
+      + destruct Hcase as [Hf|Hd]; [discriminate|]. destruct Hev as [Hl [Hdd [Hle Hchg]]].
+        repeat split; auto. intros _. cbn [p_chg p_changed]. lia.
       + exact Hev.
     - eapply timers_upd; eauto.
     - eapply subs_ok_vars; [|exact Hsubs]. intros last. eapply fresh_upd; eauto.
@@ -144,13 +145,13 @@ Section StepSet.
   Proof.
     intros [Hnow [Hns [H0 [Hv [Htm Hsubs]]]]] Hc Hvr Hp Hvalid Hevd Hdf Hlt.
     destruct Hv as [L1 [L2 Hv']]. pose proof (Hv' i d vr pv Hc Hvr Hp) as [Hval [Hvd [Hrate Hev]]].
-    rewrite Hevd in Hev. destruct Hev as [Hl [Hdd Hle]].
+    rewrite Hevd in Hev. destruct Hev as [Hl [Hdd [Hle Hchg]]].
     pose proof (no_timer _ _ _ _ _ Htm Hvr Hdf) as Hno.
     unfold R. cbn [now nsid vars timers subs set_vars set_timers sp_set_vars sp_now sp_nsid sp_vars sp_subs].
     split; [exact Hnow|]. split; [exact Hns|]. split; [exact H0|]. split; [|split].
     - apply vrel_upd with (d := d); [exact (conj L1 (conj L2 Hv'))|exact Hc|].
       unfold var_ok. cbn [set_val set_dfr v_val v_last v_dfr p_changed p_val p_trig p_dirty].
-      rewrite Hevd. repeat split; auto.
+      rewrite Hevd. repeat split; auto. intros _. cbn [p_chg p_changed]. lia.
     - destruct Htm as [Hnd [H2 H3]]. split; [|split].
       + rewrite map_app. cbn. apply NoDup_app_one; auto.
       + intros w j Hin. apply in_app_or in Hin. destruct Hin as [Hin|[Heq|[]]].
@@ -185,7 +186,7 @@ Section StepSet.
     intros HR Hc Hvr Hp Hvalid Hevd Hdf Hle m1 sp1.
     pose proof HR as [Hnow [Hns [H0 [Hv [Htm Hsubs]]]]].
     destruct Hv as [L1 [L2 Hv']]. pose proof (Hv' i d vr pv Hc Hvr Hp) as [Hval [Hvd [Hrate Hev]]].
-    rewrite Hevd in Hev. destruct Hev as [Hl [Hdd Hle']].
+    rewrite Hevd in Hev. destruct Hev as [Hl [Hdd [Hle' Hchg]]].
     set (PC := p_changed pv x true (sp_now sp)).
     set (PV := p_triggered PC (now m)).
     set (sp1' := sp_set_vars sp (upd (sp_vars sp) i PV)).
@@ -194,7 +195,7 @@ Section StepSet.
       split; [exact Hnow|]. split; [exact Hns|]. split; [exact H0|]. split; [|split].
       - apply vrel_upd with (d := d); [exact (conj L1 (conj L2 Hv'))|exact Hc|].
         unfold var_ok, PV, PC. cbn [set_val set_last v_val v_last v_dfr p_changed p_triggered p_val p_trig p_dirty].
-        rewrite Hevd. repeat split; auto. lia.
+        rewrite Hevd. repeat split; auto; try lia; try (intros; discriminate).
       - eapply timers_upd_nodfr; eauto.
       - eapply subs_ok_weaken; eauto. }
     destruct (batch_R c m1 sp1' [] HR0) as [sps' [Hfold [HR2 [Hcount _]]]].
